@@ -71,14 +71,14 @@ Lemma zlen_name_entries le es :
   fold_right (fun e acc => ns_entry_len e + acc) 0 es.
 Proof.
   induction es as [|e r IH]; cbn [map concat fold_right]; [reflexivity|].
-  rewrite zlen_app, IH. unfold encode_name_entry, ns_entry_len, cstring_encode.
-  rewrite !zlen_app, zlen_int_encode. unfold zlen at 3. cbn [length]. lia.
+  rewrite zlen_app, IH. change (ns_entry_len e) with (4 + zlen (snd e) + 1). unfold encode_name_entry, cstring_encode.
+  rewrite !zlen_app, zlen_int_encode. change (zlen [0]) with 1. lia.
 Qed.
 
 Lemma name_entries_len_ge es : zlen es <= fold_right (fun e acc => ns_entry_len e + acc) 0 es.
 Proof.
-  induction es as [|e r IH]; cbn [fold_right]; [unfold zlen; cbn; lia|].
-  rewrite zlen_cons. unfold ns_entry_len. pose proof (zlen_nonneg (snd e)). lia.
+  induction es as [|e r IH]; cbn [fold_right]; [rewrite zlen_nil; lia|].
+  rewrite zlen_cons. change (ns_entry_len e) with (4 + zlen (snd e) + 1). pose proof (zlen_nonneg (snd e)). lia.
 Qed.
 
 Lemma ns_body_length le s : zlen (ns_body le s) = ns_unit_length s.
@@ -91,7 +91,7 @@ Lemma wf_name_set_facts s : wf_name_set s = true ->
   forallb name_entry_ok (ns_entries s) = true /\ 0 <= ns_unit_length s < 0xfffffff0.
 Proof.
   unfold wf_name_set. intros H. repeat (apply andb_prop in H; destruct H as [H ?]).
-  repeat split; auto; try lia.
+  repeat split; auto; try lia; try (unfold u_ok; lia).
   unfold ns_unit_length. pose proof (name_entries_len_ge (ns_entries s)).
   pose proof (zlen_nonneg (ns_entries s)). pose proof (zlen_nonneg (ns_trail s)). lia.
 Qed.
@@ -156,7 +156,7 @@ Qed.
 
 Lemma encode_names_length_ge le sets : wf_names sets = true -> zlen sets <= zlen (encode_names le sets).
 Proof.
-  induction sets as [|s r IH]; intros Hwf; [unfold encode_names; cbn; lia|].
+  induction sets as [|s r IH]; intros Hwf; [unfold encode_names; cbn [map concat]; unfold zlen; cbn [length]; lia|].
   unfold wf_names in Hwf. cbn [forallb] in Hwf. apply andb_prop in Hwf. destruct Hwf as [Hs Hr].
   destruct (wf_name_set_facts s Hs) as (_ & _ & _ & _ & Hul).
   unfold encode_names. cbn [map concat]. fold (encode_names le r).
